@@ -449,6 +449,10 @@ pub fn run(ctx: &Ctx) -> Report {
             big.push((format!("{} x & then a=b", n), format!("{}a=b", "&".repeat(n)).into_bytes()));
             big.push((format!("a=b then {} x &", n), format!("a=b{}", "&".repeat(n)).into_bytes()));
         }
+        // non-empty bodies without a single parameter, and degenerate parameters
+        for d in ["&", "&&", "&&&&&&&&", "=", "&=", "=&", "&=&", "==", "a", "a&", "&a", "=&="] {
+            big.push((format!("degenerate body {:?}", d), d.as_bytes().to_vec()));
+        }
         big.push(("4000 tiny parameters".into(), (0..4000).map(|i| format!("p{:04}=v", i)).collect::<Vec<_>>().join("&").into_bytes()));
         big.push(("20000 x %20 in one value".into(), format!("x={}", "%20".repeat(20_000)).into_bytes()));
         big.push(("60000 plain bytes in one value".into(), format!("x={}", "v".repeat(60_000)).into_bytes()));
